@@ -46,7 +46,7 @@ CLAIMED = {
          "Deviation x place coverage comes from the specification; expectations are stated in the trace validator, not in the harness."),
 }
 
-HOOK_COMMITS = ["8fb4cf3", "2d01245", "beed2f4"]
+HOOK_COMMITS = ["8fb4cf3", "2d01245", "92f3680"]
 
 def main():
     m = json.load(open(os.path.join(ROOT, "MANIFEST.json")))
